@@ -21,6 +21,7 @@ type KnownFinding struct {
 	Status     string `json:"status"` // open | fixed
 	Commit     string `json:"commit,omitempty"`
 	What       string `json:"what"`
+	Class      string `json:"class,omitempty"` // witness class a bounded stand-in can recognise and skip
 }
 
 type oblReport struct {
@@ -531,7 +532,18 @@ func runBounded(o *Options, sp *Specs, P string, keys []string, known []KnownFin
 			if o.Tier == "thorough" {
 				timeout = "1800s"
 			}
-			out, cmd, found := runGoTest(o, strings.Split(key, ".")[0], bd.Test, []string{"VERIF_TIER=" + o.Tier, "VERIF_SEED=" + os.Getenv("VERIF_SEED")}, timeout)
+			var classes []string
+			for _, k := range known {
+				if k.Property == P && k.Status == "open" && k.Obligation == name && k.Class != "" {
+					classes = append(classes, k.Class)
+				}
+			}
+			out, cmd, found := runGoTest(o, strings.Split(key, ".")[0], bd.Test, []string{"VERIF_TIER=" + o.Tier, "VERIF_SEED=" + os.Getenv("VERIF_SEED"), "VERIF_KNOWN=" + strings.Join(classes, ",")}, timeout)
+			for _, k := range known {
+				if k.Property == P && k.Status == "open" && k.Obligation == name && k.Class != "" && strings.Contains(out, "KNOWN-FINDING-REPRODUCED class="+k.Class) {
+					knownHit = append(knownHit, fmt.Sprintf("KNOWN-FINDING: property=%s %s class=%s %s", P, name, k.Class, k.What))
+				}
+			}
 			rep := boundedReport{Name: name, Bound: bd.Bound, WallS: round3(time.Since(t0).Seconds())}
 			for _, l := range strings.Split(out, "\n") {
 				if strings.HasPrefix(l, "BOUNDED ") {
@@ -548,7 +560,7 @@ func runBounded(o *Options, sp *Specs, P string, keys []string, known []KnownFin
 			reports = append(reports, rep)
 			isKnown := false
 			for _, k := range known {
-				if k.Property == P && k.Status == "open" && k.Obligation == name {
+				if k.Property == P && k.Status == "open" && k.Obligation == name && k.Class == "" {
 					isKnown = true
 					knownHit = append(knownHit, fmt.Sprintf("KNOWN-FINDING: property=%s %s %s", P, name, k.What))
 				}
